@@ -32,15 +32,37 @@ def signClip : List Int → List Rat → List Rat
 
 def swapPairs (cs : Pairs) : Pairs := cs.map (fun c => (c.2, c.1))
 
-/-- `scalings` of the range-dominance step -/
-def scalings : List Int → List (Option Rat) → List (Option Rat) → List Rat
+/-- `dim in range_dims`: the dimension occurs in some range-dominance pair -/
+def inPairs (rd : Pairs) (k : Nat) : Bool := rd.any (fun c => c.1 == k || c.2 == k)
+
+/-- `scalings` of the range-dominance step of `project` (linear_lib.py:93-103), from dimension `k`
+on: `±1` by the monotonicity, times `input_max - input_min` ONLY for the dimensions that take part
+in a range dominance (fix 44c9e89) and have both bounds; every other dimension keeps `±1`. -/
+def scalingsFrom (rd : Pairs) : Nat → List Int → List (Option Rat) → List (Option Rat) → List Rat
+  | _, [], _, _ => []
+  | k, m :: ms, los, his =>
+    let s : Rat := if m = -1 then -1 else 1
+    let r : Rat := if inPairs rd k then
+        (match los.headD none, his.headD none with
+          | some l, some h => h - l
+          | _, _ => 1)
+      else 1
+    s * r :: scalingsFrom rd (k + 1) ms los.tail his.tail
+
+def scalings (monos : List Int) (rd : Pairs) (los his : List (Option Rat)) : List Rat :=
+  scalingsFrom rd 0 monos los his
+
+/-- `scalings` of `assert_constraints` (linear_lib.py:180-183, untouched by 44c9e89): EVERY dimension
+with both bounds is scaled by its range. On the dimensions of the range-dominance pairs — the only
+entries `assert_constraints` reads — it agrees with `scalings` (`scalings_eq_all`, Lemmas/LinearEval). -/
+def scalingsAll : List Int → List (Option Rat) → List (Option Rat) → List Rat
   | [], _, _ => []
   | m :: ms, los, his =>
     let s : Rat := if m = -1 then -1 else 1
     let r : Rat := match los.headD none, his.headD none with
       | some l, some h => h - l
       | _, _ => 1
-    s * r :: scalings ms los.tail his.tail
+    s * r :: scalingsAll ms los.tail his.tail
 
 def mulV (a b : List Rat) : List Rat := List.zipWith (· * ·) a b
 def divV (a b : List Rat) : List Rat := List.zipWith (· / ·) a b
@@ -61,7 +83,7 @@ def projectPre (monos : List Int) (monoDom rangeDom : Pairs) (los his : List (Op
   let w2 ← if monoDom.isEmpty then pure w1 else approxProject (swapPairs monoDom) w1
   if rangeDom.isEmpty then pure w2
   else
-    let sc := scalings monos los his
+    let sc := scalings monos rangeDom los his
     let w3 ← approxProject (swapPairs rangeDom) (mulV w2 sc)
     pure (divV w3 sc)
 
